@@ -43,6 +43,10 @@ RecordFailed(ev) ==
                    THEN {"record/only_same_strand_genes_are_merged"} ELSE {})
              \cup (IF \E m \in all : Cardinality(from(m)) > 1 /\ ~m.complete
                    THEN {"record/merged_only_if_complete"} ELSE {})
+             (* the results of the record saved and loaded again for the same record: construction never fails and the
+                modules - merged ones included - are the same, domains in the same order *)
+             \cup (IF ev.again.exc # "" THEN {"record/saved_results_load_again:" \o ev.again.exc}
+                   ELSE IF ev.again.mods # ev.mods THEN {"record/saved_results_give_the_same_modules"} ELSE {})
 
 Failed(ev) == CASE ev.op = "gene" -> GeneFailed(ev)
                 [] ev.op = "pair" -> PairFailed(ev)
